@@ -1,2 +1,124 @@
-(** placeholder while the harness is developed; replaced by the theorems *)
-From SP Require Import Design.Flat Design.Layout.
+(** C14 - Trial/factor/level variables are allocated and decoded consistently.
+
+    The theorems are about the executable model of the variable layout
+    (Design/Layout.v: [encode_variable] = Block._encode_variable,
+    [decode_variable] = Block.decode_variable, [variables_per_sample]) on the flat
+    record of a block (Design/Flat.v); harness/props/c14.py checks on every run
+    that the real block computes literally the same numbers on generated designs,
+    that the flat record of every accepted design satisfies [wf_layout], and
+    decides the property itself on the real code.
+
+    [applicable fb f l t]: f is a factor of act_design, l one of its levels, t a
+    trial (1-based) of the sequence to which f applies - i.e. (t, f, l) is a choice
+    the solver makes.  [wf_layout fb] (Design/LayoutWf.v, executable): factors
+    without complex window apply to every trial, and act_design lists no factor twice.
+    [decode] (Sample/Decode.v) is the model of Gen.decode; [act_keys_distinct fb]
+    (Sample/DecodeWf.v, executable): the dict keys (names) of the factors of
+    act_design are pairwise distinct - the hypothesis forced by the name-keyed dict;
+    the pinned constructors do not enforce it (finding "decode:duplicate-name"). *)
+From Coq Require Import ZArith List Arith String.
+From SP Require Import Design.Flat Design.Layout Design.LayoutWf Design.LayoutProofs Design.LayoutExamples.
+From SP Require Import Sample.Decode Sample.DecodeWf Sample.DecodeProofs.
+Import ListNotations.
+
+(** Distinct choices never share a variable. *)
+Theorem C14_encode_inj :
+  forall fb : flat, wf_layout fb = true ->
+  forall f l t f' l' t',
+    applicable fb f l t -> applicable fb f' l' t' ->
+    encode_variable fb f l t = encode_variable fb f' l' t' ->
+    f = f' /\ l = l' /\ t = t'.
+Proof. exact encode_inj. Qed.
+Print Assumptions C14_encode_inj.
+
+(** Every choice has a variable, and it lies in 1..variables_per_sample ... *)
+Theorem C14_encode_range :
+  forall fb : flat, wf_layout fb = true ->
+  forall f l t,
+    applicable fb f l t ->
+    exists v, encode_variable fb f l t = Some v /\ 1 <= v <= variables_per_sample fb.
+Proof. exact encode_range. Qed.
+Print Assumptions C14_encode_range.
+
+(** ... and every variable in 1..variables_per_sample stands for a choice. *)
+Theorem C14_encode_onto :
+  forall fb : flat, wf_layout fb = true ->
+  forall v,
+    1 <= v <= variables_per_sample fb ->
+    exists f l t, applicable fb f l t /\ encode_variable fb f l t = Some v.
+Proof. exact encode_onto. Qed.
+Print Assumptions C14_encode_onto.
+
+(** [decode_variable] recovers factor and level of an encoded choice. *)
+Theorem C14_decode_encode :
+  forall fb : flat, wf_layout fb = true ->
+  forall f l t v,
+    applicable fb f l t -> encode_variable fb f l t = Some v ->
+    decode_variable fb v = Some (f, l).
+Proof. exact decode_encode. Qed.
+Print Assumptions C14_decode_encode.
+
+(** The first auxiliary variable, [fresh = 1 + variables_per_sample()] in
+    build_backend_request, is above every encoded choice. *)
+Theorem C14_fresh_above :
+  forall fb : flat, wf_layout fb = true ->
+  forall f l t v,
+    applicable fb f l t -> encode_variable fb f l t = Some v ->
+    v < variables_per_sample fb + 1.
+Proof. exact fresh_above. Qed.
+Print Assumptions C14_fresh_above.
+
+(** Decoding.  Let [s f t] be a level choice (one level per applicable (trial,
+    factor)) and [sol] an assignment without repeated literals in which, among the
+    variables 1..variables_per_sample, exactly the variables of the chosen levels
+    occur positively (negative literals and auxiliary variables are unconstrained).
+    Then [decode] succeeds and the resulting dict has, for every factor f of
+    act_design, under f's key the list over all trials t0 = 0..T-1 of the chosen
+    level's name where f applies and '' where it does not; and it has no other keys. *)
+Theorem C14_decode_onehot :
+  forall fb : flat,
+    wf_layout fb = true -> act_keys_distinct fb = true -> 1 <= fl_trials fb ->
+    forall s : nat -> nat -> nat,
+      (forall f t, In f (fl_act fb) /\ 1 <= t <= fl_trials fb /\ applies_at fb f t = true ->
+                   s f t < nlevels fb f) ->
+      forall sol : list Z,
+        NoDup sol ->
+        (forall v, 1 <= v <= variables_per_sample fb ->
+                   (In (Z.of_nat v) sol <->
+                    exists f t, (In f (fl_act fb) /\ 1 <= t <= fl_trials fb /\ applies_at fb f t = true) /\
+                                encode_variable fb f (s f t) t = Some v)) ->
+        exists d,
+          decode fb sol = DOk d /\
+          (forall f, In f (fl_act fb) ->
+                     lookup (key_of fb f) d
+                     = Some (map (fun t0 => if applies_at fb f (S t0)
+                                            then level_name fb f (s f (S t0)) else EmptyString)
+                                 (seq 0 (fl_trials fb)))) /\
+          (forall k ys, In (k, ys) d -> exists f, In f (fl_act fb) /\ k = key_of fb f).
+Proof. exact decode_onehot. Qed.
+Print Assumptions C14_decode_onehot.
+
+(** The hypotheses are met by the flat record of
+    Repeat(CrossBlock([f, t], [f], [AtMostKInARow(1, (t, "same"))]), [MinimumTrials(5)])
+    (f with two levels, t a transition factor on f: 10 grid variables, 8 for t). *)
+Example C14_example_wf : wf_layout ex_repeat = true.
+Proof. reflexivity. Qed.
+
+Example C14_example_choice :
+  applicable ex_repeat 1 0 3 /\ encode_variable ex_repeat 1 0 3 = Some 13 /\
+  decode_variable ex_repeat 13 = Some (1, 0) /\ variables_per_sample ex_repeat = 18.
+Proof.
+  split; [|split; [|split]]; try reflexivity.
+  unfold applicable. cbn. repeat split; auto with arith.
+Qed.
+
+(** the transition factor does not apply to the first trial: no choice, no variable *)
+Example C14_example_not_applicable : applies_at ex_repeat 1 1 = false.
+Proof. reflexivity. Qed.
+
+(** decoding the assignment that picks level 0 everywhere (t is not applicable at trial 1) *)
+Example C14_example_decode :
+  act_keys_distinct ex_repeat = true /\
+  decode ex_repeat [1; -2; 3; -4; 5; 7; 9; 11; -12; 13; 15; 17; 19; 23]%Z
+  = DOk [(KName "f", ["a"; "a"; "a"; "a"; "a"]); (KName "t", [""; "same"; "same"; "same"; "same"])]%string.
+Proof. split; reflexivity. Qed.
